@@ -458,6 +458,55 @@ def diag_layout_case(case, acc: Acc):
         acc.sample({"case": list(case), "text": text})
 
 
+# ------------------------------------------------ re-layout of a file the server already holds
+EDGE_LAYOUTS = {"lead1": lambda t: "\n" + t, "lead2": lambda t: "\n\n" + t, "lead_blanks": lambda t: "   \n" + t, "lead_comment": lambda t: "! moved\n" + t,
+                "trail2": lambda t: t + "\n\n", "lead_and_trail": lambda t: "\n" + t + "\n", "no_final_break": lambda t: t.rstrip("\n"),
+                "lead_tab_line": lambda t: " \n \n" + t, "crlf": lambda t: t.replace("\n", "\r\n")}
+
+
+def _outline_of(s, path):
+    r = s.result("textDocument/documentSymbol", {"textDocument": Server.tdpp(path, 0, 0)["textDocument"]})
+    if not isinstance(r, list):
+        return r
+    return sorted((x["name"].lower(), x["kind"], x["location"]["range"]["start"]["line"], x["location"]["range"]["end"]["line"]) for x in r)
+
+
+def session_layout_case(job, acc: Acc):
+    """The file is re-laid-out on disk (blank / comment lines added before the first or after the last statement, line
+    ends changed) while the server holds it, and the server is told (didSave, or didOpen, or didOpen + didClose): the
+    outline is that of the new text, as a fresh server gives it - every line shifted by the lines added above."""
+    pname, lname, delivery = job
+    text = programs.PROGRAMS[pname]
+    new = EDGE_LAYOUTS[lname](text)
+    sc = worker_scratch("c13s")
+    sc.wipe()
+    root = os.path.realpath(os.path.join(sc.path, "w"))
+    os.makedirs(root)
+    path = os.path.join(root, pname + ".f90")
+    with open(path, "w", newline="") as f:
+        f.write(text)
+    s = Server([])
+    s.initialize(root)
+    before = _outline_of(s, path)
+    with open(path, "w", newline="") as f:
+        f.write(new)
+    if delivery == "save":
+        s.save(path)
+    else:
+        s.open(path)
+        if delivery == "open_close":
+            s.close(path)
+    got = _outline_of(s, path)
+    f2 = Server([])
+    f2.initialize(root)
+    want = _outline_of(f2, path)
+    acc.case(nontrivial_key=job, outcome=(lname, delivery, want != before))
+    if got != want:
+        acc.violation(Violation("session_layout", {"family": "session_layout", "program": pname, "layout": lname, "delivery": delivery, "obs": "outline_is_not_that_of_the_new_text"},
+                                {"job": list(job)}, want[:6] if isinstance(want, list) else want, got[:6] if isinstance(got, list) else got,
+                                what=f"{pname} re-laid-out on disk ({lname}), {delivery}: outline differs from a fresh server's"))
+
+
 def main(ctx):
     q = ctx.quick
     ctx.rule = ("programs: 6 canonical programs (together every statement kind) x every single transformation — 2 line "
@@ -482,6 +531,10 @@ def main(ctx):
     ctx.add_family("programs", acc, variants=len(jobs))
     sacc = core.pmap(sample_case, sample_jobs(q), chunk=8, budget_s=120, label="C13/samples")
     ctx.add_family("samples", sacc)
+    zacc = core.pmap(session_layout_case, [(pn, ln, d) for pn in programs.PROGRAMS for ln in EDGE_LAYOUTS for d in ("save", "open", "open_close")], chunk=4, budget_s=120,
+                     label="C13/session_layout")
+    ctx.add_family("session_layout", zacc, what="every corpus program re-laid-out on disk at its edges (9 layouts: blank / comment lines before the first statement, after the "
+                   "last, no final line break, CRLF) while the server holds it x 3 ways of telling the server: the outline equals a fresh server's on the new text")
     dacc = core.pmap(diag_layout_case, list(diag_layouts()), chunk=4, budget_s=120, label="C13/diagnosed")
     ctx.add_family("diagnosed", dacc, what="6 programs with one word-anchored diagnostic x word on one line / last / middle continuation line "
                    "x nothing / blanks / comments after it x LF / CRLF; (message, severity, covered word) compared with the one-line layout")
@@ -490,6 +543,9 @@ def main(ctx):
 def replay(rec):
     c = rec["case"]
     acc = Acc()
+    if rec["family"] == "session_layout":
+        session_layout_case(tuple(c["job"]), acc)
+        return [v.to_json("C13") for v in acc.violations] or None
     if rec["family"] == "diagnosed":
         diag_layout_case(tuple(c["case"]), acc)
         return [v.to_json("C13") for v in acc.violations] or None
